@@ -77,12 +77,18 @@ impl<'a> Iterator for ChannelSpecIterator<'a> {
             if *x == b'!' {
                 self.chars.next();
             }
-            lexical_core::parse_partial(self.chars.as_slice())
-                .map(|(n, len)| {
+            match lexical_core::parse_partial(self.chars.as_slice()) {
+                // A dimension without digits (`1!!2`) is an error, not a value
+                Ok((n, len)) if len > 0 => {
                     self.chars.nth(len - 1).unwrap();
-                    n
-                })
-                .map_err(|_| ErrorCode::ExpressionError)
+                    Ok(n)
+                }
+                _ => {
+                    // Nothing sensible can follow, end the iteration after this error
+                    self.chars = [].iter();
+                    Err(ErrorCode::ExpressionError)
+                }
+            }
         })
     }
 }
